@@ -165,8 +165,6 @@ class SubscriptionOracle:
                         i.running = False
                         self._stop_instance(i, f)
         elif f == "conn_lost":
-            if self.conn_lost:
-                return
             self.conn_lost = True
             if self.started:
                 self.started = False
@@ -331,7 +329,7 @@ class SubscriptionOracle:
             if kind == "crash" and f"{actor}{data}" == self.node:
                 break  # this incarnation is gone: nothing more happens in it, nothing more is owed by it
             if kind == "idle":
-                if any(t0 - RES <= T < t1 - RES for t0, t1 in self.stalls):
+                if any(t0 <= T < t1 for t0, t1 in self.stalls):  # frozen: released when the loop clock reaches t1
                     continue
                 self.on_idle(T)
             elif actor != self.node and kind != "busy":
